@@ -478,6 +478,8 @@ def dy_to_float(j):
     if isinstance(j, str):
         return {"nan": float("nan"), "inf": float("inf"), "-inf": float("-inf")}[j]
     s, q = j[0], j[1]
+    if s in (2, 3, -3):
+        return {2: float("nan"), 3: float("inf"), -3: float("-inf")}[s]
     m = 0
     for i, limb in enumerate(j[2:]):
         m += limb << (13 * i)
